@@ -7,6 +7,7 @@ a missing required key is refused.  By symbolic execution of the source.
 The session object lives at address 8 (optional attributes pre-set to atoms 81 / 82 / num 83); the
 settings are a dictionary value with string keys and atom values.
 -/
+import PamsLemmas.EvalNf
 import PamsGen.Code
 import PamsLemmas.SrcOrder
 
@@ -66,13 +67,13 @@ def sNoSteps : Val := .dict (reqKeys.tail) (reqVals.tail)
 def sStepsNotInt : Val := .dict reqKeys (.num (.atom 7) :: reqVals.tail)
 
 set_option maxRecDepth 100000
-theorem sessionP_new : sessionPaths sNew = nf% (sessionPaths sNew) := by rfl
-theorem sessionP_legacy : sessionPaths sLegacy = nf% (sessionPaths sLegacy) := by rfl
-theorem sessionP_minimal : sessionPaths sMinimal = nf% (sessionPaths sMinimal) := by rfl
-theorem sessionP_bothCaps : sessionPaths sBothCaps = nf% (sessionPaths sBothCaps) := by rfl
-theorem sessionP_bothRates : sessionPaths sBothRates = nf% (sessionPaths sBothRates) := by rfl
-theorem sessionP_noSteps : sessionPaths sNoSteps = nf% (sessionPaths sNoSteps) := by rfl
-theorem sessionP_stepsNotInt : sessionPaths sStepsNotInt = nf% (sessionPaths sStepsNotInt) := by rfl
+theorem sessionP_new : sessionPaths sNew = evalnf% (sessionPaths sNew) := by kernel_rfl
+theorem sessionP_legacy : sessionPaths sLegacy = evalnf% (sessionPaths sLegacy) := by kernel_rfl
+theorem sessionP_minimal : sessionPaths sMinimal = evalnf% (sessionPaths sMinimal) := by kernel_rfl
+theorem sessionP_bothCaps : sessionPaths sBothCaps = evalnf% (sessionPaths sBothCaps) := by kernel_rfl
+theorem sessionP_bothRates : sessionPaths sBothRates = evalnf% (sessionPaths sBothRates) := by kernel_rfl
+theorem sessionP_noSteps : sessionPaths sNoSteps = evalnf% (sessionPaths sNoSteps) := by kernel_rfl
+theorem sessionP_stepsNotInt : sessionPaths sStepsNotInt = evalnf% (sessionPaths sStepsNotInt) := by kernel_rfl
 
 macro "session_finish" : tactic =>
   `(tactic| (all_goals intro h
